@@ -59,16 +59,41 @@ def _is_symbolic(v):
         return type(v).__module__.startswith('crosshair')
 
 
-def kfloat(v=0.0):
+def _kfloat_impl(v=0.0):
     if _is_symbolic(v) and isinstance(v, _real_int) and not isinstance(v, bool):
         return _IntegralFloat()          # symbolic int: only .is_integer() is ever asked of it (in _int_parser)
     return _real_float(v)
 
 
-def kint(v=0, *a):
+def _kint_impl(v=0, *a):
     if not a and isinstance(v, _real_int) and not isinstance(v, bool):
         return v
     return _real_int(v, *a)
+
+
+class _ShimMeta(type):
+    """The shims stand for the builtin *types* float / int inside attribute.subtypes: calling them converts (see above),
+    isinstance / issubclass against them behave exactly like the builtin type."""
+
+    def __instancecheck__(cls, obj):
+        return isinstance(obj, cls._real)
+
+    def __subclasscheck__(cls, sub):
+        return issubclass(sub, cls._real)
+
+
+class kfloat(metaclass=_ShimMeta):
+    _real = _real_float
+
+    def __new__(cls, v=0.0):
+        return _kfloat_impl(v)
+
+
+class kint(metaclass=_ShimMeta):
+    _real = _real_int
+
+    def __new__(cls, v=0, *a):
+        return _kint_impl(v, *a)
 
 
 def install_number_shims():
